@@ -86,6 +86,8 @@ type Canon struct {
 	inBase map[*types.Func]bool
 	// typeInBase: the named type corresponds to a baseline declaration
 	typeInBase map[*types.TypeName]bool
+	// baseFieldNames: the field names the baseline declaration of a struct type had
+	baseFieldNames map[*types.TypeName]map[string]bool
 }
 
 func exported(name string) bool { return name != "" && name[0] >= 'A' && name[0] <= 'Z' }
@@ -430,6 +432,13 @@ func (p *Program) buildCanon() (*Canon, error) {
 		if bt == nil {
 			continue
 		}
+		if c.baseFieldNames == nil {
+			c.baseFieldNames = map[*types.TypeName]map[string]bool{}
+		}
+		c.baseFieldNames[tn] = map[string]bool{}
+		for _, bf := range bt.Fields {
+			c.baseFieldNames[tn][bf.Name] = true
+		}
 		have := map[string]bool{}
 		for i := 0; i < st.NumFields(); i++ {
 			have[st.Field(i).Name()] = true
@@ -666,6 +675,12 @@ func (p *Program) installOwner() {
 	type owner struct {
 		field string
 		n     int
+		// group: the new type is a struct that merely groups fields of its owner (`store eventCacheStore`
+		// holding what used to be evs / evsCreatedAt / evsIndex): its field is transparent in access
+		// paths — `c.store.evs` reads `recv.evs`, and inside the group's own methods the receiver is
+		// the owner — unless a field name of the group clashes with another field of the owner
+		group    bool
+		fieldVar *types.Var
 	}
 	owners := map[*types.TypeName]*owner{}
 	typeNameOf := func(t types.Type) *types.TypeName {
@@ -702,6 +717,18 @@ func (p *Program) installOwner() {
 			}
 			o.n++
 			o.field = an.FieldNameHook(st, i)
+			o.fieldVar = st.Field(i)
+			// (a field the baseline already had — the matcher's `f` getting a named type — is not a new grouping)
+			if gst, isStruct := ft.Type().Underlying().(*types.Struct); isStruct && !c.baseFieldNames[tn][an.FieldNameHook(st, i)] {
+				o.group = true
+				for j := 0; j < gst.NumFields(); j++ {
+					for k := 0; k < st.NumFields(); k++ {
+						if k != i && an.FieldNameHook(st, k) == an.FieldNameHook(gst, j) {
+							o.group = false
+						}
+					}
+				}
+			}
 		}
 	}
 	// no other way for a value of the type to travel
@@ -747,9 +774,58 @@ func (p *Program) installOwner() {
 			return ""
 		}
 		if o := owners[t]; o != nil && o.n == 1 {
+			if o.group {
+				return "recv"
+			}
 			return "recv." + o.field
 		}
 		return ""
+	}
+	groupVar := map[*types.Var]bool{}
+	for _, o := range owners {
+		if o.n == 1 && o.group && o.fieldVar != nil {
+			groupVar[o.fieldVar] = true
+		}
+	}
+	// methods of grouping types called from exactly one place: parameters read as the arguments
+	sites := map[*ssa.Function][]*ssa.CallCommon{}
+	isGroupMethod := func(fn *ssa.Function) bool {
+		if fn == nil || fn.Signature.Recv() == nil {
+			return false
+		}
+		t := typeNameOf(fn.Signature.Recv().Type())
+		o := owners[t]
+		return t != nil && o != nil && o.n == 1 && o.group
+	}
+	for _, fn := range p.ModFuncs {
+		for _, b := range fn.Blocks {
+			for _, in := range b.Instrs {
+				if ci, ok := in.(ssa.CallInstruction); ok {
+					if sc := ci.Common().StaticCallee(); isGroupMethod(sc) {
+						sites[sc] = append(sites[sc], ci.Common())
+					}
+				}
+			}
+		}
+	}
+	an.ParamBindHook = func(x *ssa.Parameter) ssa.Value {
+		fn := x.Parent()
+		if !isGroupMethod(fn) || len(sites[fn]) != 1 {
+			return nil
+		}
+		for i, q := range fn.Params {
+			if q == x && i < len(sites[fn][0].Args) {
+				return sites[fn][0].Args[i]
+			}
+		}
+		return nil
+	}
+	an.GroupFieldHook = func(t types.Type, i int) bool {
+		if pt, ok := t.Underlying().(*types.Pointer); ok {
+			t = pt.Elem()
+		}
+		st, ok := t.Underlying().(*types.Struct)
+		return ok && i < st.NumFields() && groupVar[st.Field(i)]
 	}
 }
 
@@ -814,6 +890,98 @@ func (p *Program) installWriteOnce() {
 				}
 			}
 		})
+	}
+	// package-level structs of constants (`var kindsAll = kindRange{0, 65536}`): fields the package
+	// initialiser sets to an integer constant and nothing else ever assigns
+	type gf struct {
+		g *ssa.Global
+		i int
+	}
+	gconst := map[gf]int64{}
+	gdirty := map[gf]bool{}
+	scan := append([]*ssa.Function(nil), p.ModFuncs...)
+	for _, pkg := range []*ssa.Package{p.Root, p.Sqlite, p.Prom} {
+		if pkg == nil {
+			continue
+		}
+		if ini := pkg.Func("init"); ini != nil {
+			listed := false
+			for _, f := range scan {
+				if f == ini {
+					listed = true
+				}
+			}
+			if !listed {
+				scan = append(scan, ini)
+			}
+		}
+	}
+	for _, fn := range scan {
+		an.Instrs(fn, func(in ssa.Instruction) {
+			switch x := in.(type) {
+			case *ssa.Store:
+				// a whole-struct assignment to a global, or one through a pointer we cannot follow
+				if g, ok := x.Addr.(*ssa.Global); ok {
+					if _, isStruct := g.Type().(*types.Pointer).Elem().Underlying().(*types.Struct); isStruct {
+						for i := 0; i < 64; i++ {
+							gdirty[gf{g, i}] = true
+						}
+					}
+				}
+				fa, ok := x.Addr.(*ssa.FieldAddr)
+				if !ok {
+					return
+				}
+				g, ok := fa.X.(*ssa.Global)
+				if !ok {
+					return
+				}
+				k := gf{g, fa.Field}
+				if fn.Name() == "init" && fn.Parent() == nil {
+					if c, isConst := an.ConstInt(x.Val); isConst {
+						if _, dup := gconst[k]; dup {
+							gdirty[k] = true
+						}
+						gconst[k] = c
+						return
+					}
+				}
+				gdirty[k] = true
+			case *ssa.FieldAddr:
+				// the field's address taken for anything but a load / that store
+				if g, ok := x.X.(*ssa.Global); ok && x.Referrers() != nil {
+					for _, r := range *x.Referrers() {
+						switch r.(type) {
+						case *ssa.UnOp, *ssa.Store, *ssa.DebugRef:
+						default:
+							gdirty[gf{g, x.Field}] = true
+						}
+					}
+				}
+			default:
+				// the global's own address handed somewhere (a pointer receiver call, a store)
+				for _, op := range in.Operands(nil) {
+					if op == nil || *op == nil {
+						continue
+					}
+					if g, ok := (*op).(*ssa.Global); ok {
+						if _, isLoad := in.(*ssa.UnOp); isLoad {
+							continue
+						}
+						if _, isStruct := g.Type().(*types.Pointer).Elem().Underlying().(*types.Struct); isStruct {
+							for i := 0; i < 64; i++ {
+								gdirty[gf{g, i}] = true
+							}
+						}
+					}
+				}
+			}
+		})
+	}
+	an.GlobalFieldConstHook = func(g *ssa.Global, i int) (int64, bool) {
+		k := gf{g, i}
+		c, ok := gconst[k]
+		return c, ok && !gdirty[k]
 	}
 	an.FieldSingleStoreHook = func(t types.Type, i int) *ssa.Store {
 		if pt, ok := t.Underlying().(*types.Pointer); ok {
